@@ -689,3 +689,65 @@ def run(chk, tier, pid, explicit=None):
 def replay(chk, path, pid):
     lines = [l.rstrip("\n") for l in open(path, encoding="utf-8") if l.strip() and not l.startswith("#")]
     run(chk, "quick", pid, explicit=[tpl_from_json(lines[0])])
+
+
+def c08_pipelines(chk, tier):
+    """C08 over pipelines: no stage holds a descriptor beyond 0,1,2 -- in particular neither end of the stderr capture
+    pipe of Pipeline::capture/communicate (F8) nor an end of another stage's pipe -- and a stage that closes its
+    stderr and lingers does not hold back end-of-file on the captured stream"""
+    r = C.Rng(chk.seed * 7 + 8)
+    tpls = [t for t in gen_c13(r, 60 if tier == "quick" else 400, tier)]
+    for i, t in enumerate(tpls):
+        t["id"] = "c08-pl-%d" % i
+    # a first stage that closes all its standard streams and lingers for a second: the capture must not wait for it
+    for i, n in enumerate((2, 3)):
+        tpls.append({"id": "c08-linger-%d" % i, "kind": "pipeline", "n": n, "shape": "left", "term": "communicate", "pstdin": "none", "pstdout": "none",
+                     "stderr_to": False, "codes": [0] * n, "linger": True,
+                     "stub": [["close 0", "close 1", "close 2", "sleep 1500", "exit 0"]] + [["tagcat <T%d>" % j, "exit 0"] for j in range(1, n)]})
+    scns = [scenario_of(t) for t in tpls]
+    e2.run_scenarios(scns, "C08pl")
+    mlines = X.sppure([model_pipeline(s["tpl"]) for s in scns])
+    n_ok = 0
+    for s, ml in zip(scns, mlines):
+        t = s["tpl"]
+        if s.get("timed_out") or s.get("rc") != 0:
+            chk.violation("C08: pipeline scenario did not complete [%s]" % describe(t), tpl_to_json(t))
+            continue
+        head, launches = parse_model(ml)
+        waits, pid_stage = pipe_labels(s, launches, t["term"] in ("capture", "communicate"))
+        reps = child_reports(s, pid_stage)
+        bad = []
+        for i, rp in sorted(reps.items()):
+            extra = [k for k in rp["fds"] if k > 2]
+            if extra:
+                bad.append("stage %d holds descriptors %s (%s) beyond 0,1,2" % (i, extra, [rp["fds"][k]["target"] for k in extra]))
+        if t.get("linger"):
+            ms = out_field(s, "term_ms")
+            if ms is not None and int(ms) > 1000:
+                bad.append("end-of-file on the captured streams arrived only after %s ms: a stage that had closed its own streams was still holding a pipe end" % ms)
+        if bad:
+            chk.violation("C08: %s [%s]" % ("; ".join(bad[:3]), describe(t)), tpl_to_json(t))
+        else:
+            n_ok += 1
+    chk.cov["evaluations"] = chk.cov.get("evaluations", 0) + len(scns)
+    chk.cov["traces_validated_against_impl"] = chk.cov.get("traces_validated_against_impl", 0) + n_ok
+    chk.cov["pipeline_scenarios"] = len(scns)
+
+
+def c08_replay(chk, text):
+    t = tpl_from_json(text)
+    s = scenario_of(t)
+    e2.run_scenarios([s], "C08pl")
+    if s.get("timed_out") or s.get("rc") != 0:
+        chk.violation("C08: pipeline scenario did not complete [%s]" % describe(t), tpl_to_json(t))
+        return
+    ml = X.sppure([model_pipeline(t)])[0]
+    head, launches = parse_model(ml)
+    waits, pid_stage = pipe_labels(s, launches, t["term"] in ("capture", "communicate"))
+    for i, rp in sorted(child_reports(s, pid_stage).items()):
+        extra = [k for k in rp["fds"] if k > 2]
+        if extra:
+            chk.violation("C08: stage %d holds descriptors %s beyond 0,1,2 [%s]" % (i, extra, describe(t)), tpl_to_json(t))
+    ms = out_field(s, "term_ms")
+    if t.get("linger") and ms is not None and int(ms) > 1000:
+        chk.violation("C08: end-of-file on the captured streams arrived only after %s ms [%s]" % (ms, describe(t)), tpl_to_json(t))
